@@ -63,7 +63,10 @@ Filled(call, r) ==
 CallStep(call) ==
   LET r == Do(VR, call, epoch) l == Filled(call, r) IN
   /\ VR' = r.VR /\ last' = l /\ G' = GhostNext(G, VR, r.VR, l) /\ hist' = Append(hist, l) /\ UNCHANGED epoch
-TickStep == \E n \in (IF Rich THEN {1, 2, MinTerm} ELSE {1, MinTerm + 1}) : /\ epoch' = epoch + n /\ UNCHANGED <<VR, G>>
+\* (bounded model: single epochs only right at the start and after the long jump -- the time points at which
+\* allocations expire and claim terms begin and end; the simulation config steps freely)
+TickStep == \E n \in (IF Rich THEN {1, 2, MinTerm} ELSE (IF epoch < 2 \/ epoch > MinTerm THEN {1} ELSE {}) \cup {MinTerm + 1}) :
+                                       /\ epoch' = epoch + n /\ UNCHANGED <<VR, G>>
                                        /\ last' = [a |-> "Tick", ok |-> TRUE, n |-> n] /\ hist' = Append(hist, last')
 MCNext == (\E call \in Calls : CallStep(call)) \/ TickStep
 SimNext == \/ \E call \in RandomSubset(30, Calls) : Do(VR, call, epoch).ok /\ CallStep(call)
